@@ -10,6 +10,8 @@ REPO = os.environ.get("ENR_REPO", "/repo")
 BUILD = os.path.join(VERIF, "build")
 WORK = os.path.join(VERIF, "work")
 IMPL = os.environ.get("ENR_IMPL", os.path.join(VERIF, "harness", "target", "debug", "enr_impl"))  # ENR_IMPL: an instrumented build, for coverage measurement only
+# the same harness built against the crate's DEFAULT features (serde + k256): the configuration the repository's own suite runs
+IMPL_DEFAULT = os.path.join(VERIF, "harness", "target-default", "debug", "enr_impl")
 MODEL = os.path.join(BUILD, "model_run")
 COQ = os.path.join(VERIF, "coq")
 KTS = ["k256", "libsecp", "ed", "comb", "toy"]
@@ -64,6 +66,9 @@ def build_all(need_coq_props=None):
         rc, out = sh("timeout 1500 cargo build --offline 2>&1", cwd=os.path.join(VERIF, "harness"), timeout=1600, check=False)
         if rc != 0:
             raise InfraError("the harness does not build against %s:\n%s" % (REPO, out[-3000:]))
+        rc, out = sh("timeout 1500 cargo build --offline --no-default-features --target-dir target-default 2>&1", cwd=os.path.join(VERIF, "harness"), timeout=1600, check=False)
+        if rc != 0:
+            raise InfraError("the harness does not build against %s with the crate's default features:\n%s" % (REPO, out[-3000:]))
     return coq_ok, time.time() - t0
 
 
@@ -298,7 +303,8 @@ def run_pair(kt, cmds, tag):
     with open(cf, "w") as f:
         f.write("\n".join(cmds) + "\n")
     t0 = time.time()
-    p = subprocess.run("timeout 900 %s %s < %s > %s" % (IMPL, kt, cf, imf), shell=True)
+    binary, impl_kt = (IMPL_DEFAULT, kt[:-len("_default")]) if kt.endswith("_default") else (IMPL, kt)
+    p = subprocess.run("timeout 900 %s %s < %s > %s" % (binary, impl_kt, cf, imf), shell=True)
     if p.returncode != 0:
         # a crash or hang of the driver process: find the line (abort / non-termination are C03 matters)
         impl_lines = open(imf).read().splitlines()
@@ -356,11 +362,17 @@ def run_impl_only(kt, cmds, tag):
     base = os.path.join(WORK, "%s.%d" % (tag, os.getpid()))
     with open(base + ".cmds", "w") as f:
         f.write("\n".join(cmds) + "\n")
-    subprocess.run("timeout 900 %s %s < %s.cmds > %s.impl" % (IMPL, kt, base, base), shell=True)
+    binary, impl_kt = (IMPL_DEFAULT, kt[:-len("_default")]) if kt.endswith("_default") else (IMPL, kt)
+    subprocess.run("timeout 900 %s %s < %s.cmds > %s.impl" % (binary, impl_kt, base, base), shell=True)
     out = open(base + ".impl").read().splitlines()
     os.remove(base + ".cmds")
     os.remove(base + ".impl")
     return out
+
+
+def base_kt(kt):
+    """the key type as the generators know it (k256_default / k256_plain are k256 for them)"""
+    return kt.replace("_default", "").replace("_plain", "")
 
 
 def cls(head):
